@@ -66,6 +66,7 @@ import (
 	"github.com/tikv/pd/server/schedule/operator"
 	"github.com/tikv/pd/server/versioninfo"
 	"go.uber.org/zap"
+	"verif/engine/explore"
 	"verif/engine/hist"
 	"verif/engine/regionsim"
 )
@@ -1813,9 +1814,13 @@ func main() {
 	runsP := func() *scopeCfg {
 		return scopeRuns("runs/no-joint", modeNoJoint, plainTemplates(), []time.Duration{min11})
 	}
-	hist.Main(&hist.Config{
+	explore.Main(&explore.Config{
 		Property: "C09",
-		Scopes: []*hist.Scope{
+		Scenarios: []*explore.Scenario{
+			statusRace("status-race/finished", 3, "", false),
+			statusRace("status-race/timed-out", 3, "", true),
+		},
+		HistScopes: []*hist.Scope{
 			mk(scopeAPI, "quick", 5, ""),
 			mk(scopeMerge, "quick", 5, ""),
 			mk(scopeMergeTimeout, "quick", 8, ""),
